@@ -21,6 +21,11 @@ def UpdOK (p : Prog) (u : State → Nat → State × Bool) (f : Nat) : Prop :=
   ∀ s x, InvR p s → x < f → (s.get x).running = false → (∀ r, (s.get r).running = true → x < r) →
     UpdPost p s x (u s x)
 
+theorem UpdPost.refl {p : Prog} {s : State} {m : Nat} (h : InvR p s)
+    (hc : (s.get m).kind = .memo → (s.get m).st = .clean) : UpdPost p s m (s, false) :=
+  ⟨h, Frame.refl s _, rfl, fun _ => rfl, hc, rfl, fun hc => (by cases hc), fun _ _ _ hd => .inl hd,
+   ValCh.of_val_eq (fun _ => rfl)⟩
+
 /-- relation between the states before and after evaluating part of the body of the running memo `m` -/
 structure EvalPost (p : Prog) (s s' : State) (m : Nat) (L : List (Nat × Int × Nat)) : Prop where
   inv : InvR p s'
@@ -107,9 +112,10 @@ theorem appendSeen_inv {p : Prog} {s : State} {m : Nat} (h : InvR p s) (hm : m <
   · intro i hk hri hv
     have him := nr i hk hri
     rw [go i him] at hk hri hv ⊢; exact h.valNone i hk hri hv
-  · intro i hk hri hst ρ hρ
+  · intro i hk hri hst
     have him := nr i hk hri
-    rw [go i him] at hk hri hst hρ ⊢; exact h.replay i hk hri hst ρ hρ
+    have g := go i him
+    rw [g] at hk hri hst; exact (h.replay i hk hri hst).congr (by rw [g]) (by rw [g])
   · intro i hk hri hst e' he'
     have him := nr i hk hri
     rw [go i him] at hk hri hst he'
@@ -292,16 +298,88 @@ theorem rd_evalPost {p : Prog} {s s2 : State} {m x : Nat} {v : Int} (hl : RunLoc
   · rw [verE]; exact rp.ver_m
   · rw [gm]; show (s2.get m).seen ++ _ = _; rw [rp.seen_m]
 
+/-- two states with the same nodes and log are related by every frame -/
+theorem Frame.of_nodes {s s' : State} (k : Nat) (hn : s'.nodes = s.nodes) (hl : s'.log = s.log) :
+    Frame s s' k := by
+  have g : ∀ i, s'.get i = s.get i := by intro i; simp only [State.get, hn]
+  refine ⟨by rw [hn], fun i => by rw [g], fun i hi => by rw [g]; exact ⟨hi, rfl⟩,
+    fun i => by rw [g]; exact Nat.le_refl _, fun i _ => by rw [g], fun i _ => by rw [g]; exact ⟨rfl, .inl rfl⟩,
+    fun h i => by rw [hl]; exact h i, fun i _ => by rw [g], fun i _ hd => .inl (by rw [← g]; exact hd),
+    FlagRel.of_same (fun i => by rw [g]; exact ⟨rfl, rfl, rfl⟩)⟩
+
+/-- an untracked read (`untrack(..)`) inside the body of the running memo `m` -/
+theorem rdU_evalPost {p : Prog} {u : State → Nat → State × Bool} {f : Nat} (hu : UpdOK p u f)
+    {m : Nat} (hmf : m ≤ f) {s : State} (h : InvR p s) (hl : RunLoc s m) {x : Nat} (hx : x < m)
+    (hkx : (s.get x).kind ≠ .eff) :
+    EvalPost p s ({ (readNode u { s with obs := none } x).1 with obs := s.obs }) m [] := by
+  have hm : m < s.nodes.length := s.lt_of_running hl.running
+  have hxnr : (s.get x).running = false := by
+    cases hr : (s.get x).running with
+    | false => rfl
+    | true => have := hl.lowest x hr; omega
+  have h' : InvR p ({ s with obs := none } : State) := h.reobs rfl (fun o ho => by cases ho)
+  have key : ∃ s2 v ch, readNode u { s with obs := none } x = (s2, v) ∧
+      UpdPost p ({ s with obs := none } : State) x (s2, ch) := by
+    unfold readNode
+    have ht : track ({ s with obs := none } : State) x = { s with obs := none } := rfl
+    rw [ht]
+    simp only
+    cases hk : (({ s with obs := none } : State).get x).kind with
+    | eff => exact absurd hk hkx
+    | sig => exact ⟨_, _, false, rfl, UpdPost.refl h' (fun hk' => by rw [hk] at hk'; cases hk')⟩
+    | memo =>
+      simp only
+      have hp := hu ({ s with obs := none } : State) x h' (by omega) hxnr
+        (fun r hr => by have := hl.lowest r hr; omega)
+      generalize u ({ s with obs := none } : State) x = r at hp
+      obtain ⟨s2, ch⟩ := r
+      exact ⟨s2, _, ch, rfl, hp⟩
+  obtain ⟨s2, v, ch, hrd, up⟩ := key
+  rw [hrd]
+  simp only
+  have hrun2 : (s2.get m).running = true := by rw [up.running]; exact hl.running
+  have inv3 : InvR p ({ s2 with obs := s.obs } : State) :=
+    up.inv.reobs rfl (fun o ho => by
+      rw [hl.obs] at ho
+      have : o = m := (Option.some.inj ho).symm
+      subst this; exact hrun2)
+  have fr : Frame s ({ s2 with obs := s.obs } : State) (m + 1) :=
+    ((Frame.of_nodes (m + 1) rfl rfl : Frame s ({ s with obs := none } : State) (m + 1)).trans
+      (up.frame.mono (by omega))).trans (Frame.of_nodes (m + 1) rfl rfl)
+  have cf := Node.core_fields (up.frame.above m (by omega)).1
+  have cfk : (s2.get m).kind = (s.get m).kind := cf.1
+  have cfsrc : (s2.get m).sources = (s.get m).sources := cf.2.2.1
+  have cfsubs : (s2.get m).subs = (s.get m).subs := cf.2.2.2.1
+  have cfseen : (s2.get m).seen = (s.get m).seen := cf.2.2.2.2.2.2.1
+  have cfver : (s2.get m).ver = (s.get m).ver := cf.2.2.2.2.2.2.2.1
+  have hrunE : ∀ i, (s2.get i).running = (s.get i).running := up.running
+  have hclean : ∀ i, (s.get i).st = .clean → (s2.get i).st = .clean ∧ (s2.get i).val = (s.get i).val :=
+    up.frame.clean
+  refine ⟨inv3, ⟨hl.obs, cfk.trans hl.kind, hrun2, ?_, ?_, ?_⟩, fr, hrunE, cfsubs,
+    cfver, by rw [List.append_nil]; exact cfseen, ?_, rfl⟩
+  · intro r hr; exact hl.lowest r (by rw [← hrunE]; exact hr)
+  · show (s2.get m).sources = (s2.get m).seen.map (·.1)
+    rw [cfsrc, cfseen]; exact hl.srcSeen
+  · intro e he
+    have he' : e ∈ (s.get m).seen := by rw [← cfseen]; exact he
+    have := hl.seenOk e he'
+    have c := hclean e.1 this.1
+    exact ⟨c.1, c.2.trans this.2⟩
+  · intro i hk y hy hne
+    rcases up.valCh i hk y hy hne with h1 | h1 | h1
+    · exact .inl h1
+    · cases h1
+    · exact .inr (.inr h1)
+
 theorem evalE_spec {p : Prog} {u : State → Nat → State × Bool} {f : Nat} (hu : UpdOK p u f)
     (wrN : State → Nat → Int → State) {m : Nat} (hmf : m ≤ f) :
     ∀ (e : Expr) (s : State), InvR p s → RunLoc s m → e.readsBelow m = true → e.noWrite = true →
-      e.noUntracked = true → e.readsData p = true →
-      ∃ L, EvalPost p s (evalE (readNode u) wrN m e s).1 m L ∧
-        ∀ ρ : Nat → Int, (∀ x ∈ L, ρ x.1 = x.2.1) → evalPure ρ e = (evalE (readNode u) wrN m e s).2
-  | .lit n, s, h, hl, _, _, _, _ => ⟨[], EvalPost.refl h hl, fun _ _ => rfl⟩
-  | .rd tracked x, s, h, hl, hb, _, hu', hd => by
-    simp only [Expr.noUntracked] at hu'
-    subst hu'
+      e.readsData p = true →
+      ∃ (L : List (Nat × Int × Nat)) (U : List Int), EvalPost p s (evalE (readNode u) wrN m e s).1 m L ∧
+        ∀ ρ : Nat → Int, (∀ x ∈ L, ρ x.1 = x.2.1) → ∀ rest,
+          evalSnap ρ e (U ++ rest) = ((evalE (readNode u) wrN m e s).2, rest)
+  | .lit n, s, h, hl, _, _, _ => ⟨[], [], EvalPost.refl h hl, fun _ _ _ => rfl⟩
+  | .rd tracked x, s, h, hl, hb, _, hd => by
     simp only [Expr.readsBelow, decide_eq_true_eq] at hb
     have hkx : (s.get x).kind ≠ .eff := by
       simp only [Expr.readsData] at hd
@@ -310,64 +388,78 @@ theorem evalE_spec {p : Prog} {u : State → Nat → State × Bool} {f : Nat} (h
       | some d =>
         rw [h.kind x d hpx]
         cases d <;> simp_all [kindOf]
-    have rp := readNode_spec hu hmf h hl hb hkx
-    simp only [evalE, if_true]
-    generalize readNode u s x = r at rp
-    obtain ⟨s2, v⟩ := r
-    exact ⟨_, rd_evalPost hl hb rp (.rdv m x v) (by intro i; simp), fun ρ hρ => by
-      simpa [evalPure] using hρ _ List.mem_cons_self⟩
-  | .add a b, s, h, hl, hb, hw, hu', hd => by
-    simp only [Expr.readsBelow, Expr.noWrite, Expr.noUntracked, Expr.readsData, Bool.and_eq_true] at hb hw hu' hd
-    obtain ⟨L1, p1, e1⟩ := evalE_spec hu wrN hmf a s h hl hb.1 hw.1 hu'.1 hd.1
+    cases tracked with
+    | true =>
+      have rp := readNode_spec hu hmf h hl hb hkx
+      simp only [evalE, if_true]
+      generalize readNode u s x = r at rp
+      obtain ⟨s2, v⟩ := r
+      exact ⟨_, [], rd_evalPost hl hb rp (.rdv m x v) (by intro i; simp), fun ρ hρ rest => by
+        have := hρ _ List.mem_cons_self
+        simp only [evalSnap, List.nil_append]
+        rw [this]⟩
+    | false =>
+      have ep := rdU_evalPost hu hmf h hl hb hkx
+      simp only [evalE, Bool.false_eq_true, if_false]
+      generalize readNode u { s with obs := none } x = r at ep
+      obtain ⟨s2, v⟩ := r
+      exact ⟨[], [v], ep, fun _ _ rest => rfl⟩
+  | .add a b, s, h, hl, hb, hw, hd => by
+    simp only [Expr.readsBelow, Expr.noWrite, Expr.readsData, Bool.and_eq_true] at hb hw hd
+    obtain ⟨L1, U1, p1, e1⟩ := evalE_spec hu wrN hmf a s h hl hb.1 hw.1 hd.1
     simp only [evalE]
     generalize evalE (readNode u) wrN m a s = r1 at p1 e1
     obtain ⟨s1, v1⟩ := r1
-    obtain ⟨L2, p2, e2⟩ := evalE_spec hu wrN hmf b s1 p1.inv p1.loc hb.2 hw.2 hu'.2 hd.2
+    obtain ⟨L2, U2, p2, e2⟩ := evalE_spec hu wrN hmf b s1 p1.inv p1.loc hb.2 hw.2 hd.2
     generalize evalE (readNode u) wrN m b s1 = r2 at p2 e2
     obtain ⟨s2, v2⟩ := r2
-    refine ⟨L1 ++ L2, p1.trans p2, fun ρ hρ => ?_⟩
-    simp only [evalPure]
-    rw [e1 ρ (fun x hx => hρ x (List.mem_append_left _ hx)),
-      e2 ρ (fun x hx => hρ x (List.mem_append_right _ hx))]
-  | .mulc k a, s, h, hl, hb, hw, hu', hd => by
-    simp only [Expr.readsBelow, Expr.noWrite, Expr.noUntracked, Expr.readsData] at hb hw hu' hd
-    obtain ⟨L1, p1, e1⟩ := evalE_spec hu wrN hmf a s h hl hb hw hu' hd
+    refine ⟨L1 ++ L2, U1 ++ U2, p1.trans p2, fun ρ hρ rest => ?_⟩
+    simp only [evalSnap, List.append_assoc]
+    rw [e1 ρ (fun x hx => hρ x (List.mem_append_left _ hx)) (U2 ++ rest)]
+    simp only
+    rw [e2 ρ (fun x hx => hρ x (List.mem_append_right _ hx)) rest]
+  | .mulc k a, s, h, hl, hb, hw, hd => by
+    simp only [Expr.readsBelow, Expr.noWrite, Expr.readsData] at hb hw hd
+    obtain ⟨L1, U1, p1, e1⟩ := evalE_spec hu wrN hmf a s h hl hb hw hd
     simp only [evalE]
     generalize evalE (readNode u) wrN m a s = r1 at p1 e1
     obtain ⟨s1, v1⟩ := r1
-    refine ⟨L1, p1, fun ρ hρ => ?_⟩
-    simp only [evalPure]
-    rw [e1 ρ hρ]
-  | .ite c t e, s, h, hl, hb, hw, hu', hd => by
-    simp only [Expr.readsBelow, Expr.noWrite, Expr.noUntracked, Expr.readsData, Bool.and_eq_true] at hb hw hu' hd
-    obtain ⟨L1, p1, e1⟩ := evalE_spec hu wrN hmf c s h hl hb.1.1 hw.1.1 hu'.1.1 hd.1.1
+    refine ⟨L1, U1, p1, fun ρ hρ rest => ?_⟩
+    simp only [evalSnap]
+    rw [e1 ρ hρ rest]
+  | .ite c t e, s, h, hl, hb, hw, hd => by
+    simp only [Expr.readsBelow, Expr.noWrite, Expr.readsData, Bool.and_eq_true] at hb hw hd
+    obtain ⟨L1, U1, p1, e1⟩ := evalE_spec hu wrN hmf c s h hl hb.1.1 hw.1.1 hd.1.1
     simp only [evalE]
     generalize evalE (readNode u) wrN m c s = r1 at p1 e1
     obtain ⟨s1, v1⟩ := r1
     simp only
     by_cases hv : (v1 != 0) = true
     · simp only [hv, if_true]
-      obtain ⟨L2, p2, e2⟩ := evalE_spec hu wrN hmf t s1 p1.inv p1.loc hb.1.2 hw.1.2 hu'.1.2 hd.1.2
-      refine ⟨L1 ++ L2, p1.trans p2, fun ρ hρ => ?_⟩
-      simp only [evalPure]
-      rw [e1 ρ (fun x hx => hρ x (List.mem_append_left _ hx)), if_pos hv]
-      exact e2 ρ (fun x hx => hρ x (List.mem_append_right _ hx))
+      obtain ⟨L2, U2, p2, e2⟩ := evalE_spec hu wrN hmf t s1 p1.inv p1.loc hb.1.2 hw.1.2 hd.1.2
+      refine ⟨L1 ++ L2, U1 ++ U2, p1.trans p2, fun ρ hρ rest => ?_⟩
+      simp only [evalSnap, List.append_assoc]
+      rw [e1 ρ (fun x hx => hρ x (List.mem_append_left _ hx)) (U2 ++ rest)]
+      simp only [hv, if_true]
+      exact e2 ρ (fun x hx => hρ x (List.mem_append_right _ hx)) rest
     · simp only [hv]
-      obtain ⟨L2, p2, e2⟩ := evalE_spec hu wrN hmf e s1 p1.inv p1.loc hb.2 hw.2 hu'.2 hd.2
-      refine ⟨L1 ++ L2, p1.trans p2, fun ρ hρ => ?_⟩
-      simp only [evalPure]
-      rw [e1 ρ (fun x hx => hρ x (List.mem_append_left _ hx)), if_neg hv]
-      exact e2 ρ (fun x hx => hρ x (List.mem_append_right _ hx))
-  | .seq a b, s, h, hl, hb, hw, hu', hd => by
-    simp only [Expr.readsBelow, Expr.noWrite, Expr.noUntracked, Expr.readsData, Bool.and_eq_true] at hb hw hu' hd
-    obtain ⟨L1, p1, e1⟩ := evalE_spec hu wrN hmf a s h hl hb.1 hw.1 hu'.1 hd.1
+      obtain ⟨L2, U2, p2, e2⟩ := evalE_spec hu wrN hmf e s1 p1.inv p1.loc hb.2 hw.2 hd.2
+      refine ⟨L1 ++ L2, U1 ++ U2, p1.trans p2, fun ρ hρ rest => ?_⟩
+      simp only [evalSnap, List.append_assoc]
+      rw [e1 ρ (fun x hx => hρ x (List.mem_append_left _ hx)) (U2 ++ rest)]
+      simp only [hv]
+      exact e2 ρ (fun x hx => hρ x (List.mem_append_right _ hx)) rest
+  | .seq a b, s, h, hl, hb, hw, hd => by
+    simp only [Expr.readsBelow, Expr.noWrite, Expr.readsData, Bool.and_eq_true] at hb hw hd
+    obtain ⟨L1, U1, p1, e1⟩ := evalE_spec hu wrN hmf a s h hl hb.1 hw.1 hd.1
     simp only [evalE]
     generalize evalE (readNode u) wrN m a s = r1 at p1 e1
     obtain ⟨s1, v1⟩ := r1
-    obtain ⟨L2, p2, e2⟩ := evalE_spec hu wrN hmf b s1 p1.inv p1.loc hb.2 hw.2 hu'.2 hd.2
-    refine ⟨L1 ++ L2, p1.trans p2, fun ρ hρ => ?_⟩
-    simp only [evalPure]
-    exact e2 ρ (fun x hx => hρ x (List.mem_append_right _ hx))
-  | .wr _ _, _, _, _, _, hw, _, _ => by simp [Expr.noWrite] at hw
+    obtain ⟨L2, U2, p2, e2⟩ := evalE_spec hu wrN hmf b s1 p1.inv p1.loc hb.2 hw.2 hd.2
+    refine ⟨L1 ++ L2, U1 ++ U2, p1.trans p2, fun ρ hρ rest => ?_⟩
+    simp only [evalSnap, List.append_assoc]
+    rw [e1 ρ (fun x hx => hρ x (List.mem_append_left _ hx)) (U2 ++ rest)]
+    exact e2 ρ (fun x hx => hρ x (List.mem_append_right _ hx)) rest
+  | .wr _ _, _, _, _, _, hw, _ => by simp [Expr.noWrite] at hw
 
 end Leptos.Reactive
